@@ -130,6 +130,101 @@ def declared_base_units(chk, rule="declared-base-units"):
                "quoted names that create undeclared base units: %s" % bad[:6])
 
 
+def substances_in_unit_lines(chk, rule="unit-lines-are-units"):
+    """A unit line whose expression evaluates to a substance is stored as a substance (an alias or a mixture), not as a unit.
+    That is meant for `air`-style mixtures and aliases; a line that multiplies a substance symbol with ordinary units
+    (`lusec  liter micron Hg / s`, where Hg is mercury in rink but a pressure unit in GNU units) silently becomes a substance
+    with a meaningless amount, and an alias whose name also has a unit reading can never be reached (units are looked up first,
+    prefixes and plurals included)."""
+    d = defs()
+    subs = {x["name"] for x in d if x["kind"] == "substance"} | {x["symbol"] for x in d if x["kind"] == "substance" and x.get("symbol")}
+    exact = {x["name"] for x in d if x["kind"] in ("unit", "base")} | {x["long"] for x in d if x["kind"] == "base" and x.get("long")} | \
+        {x["name"] for x in d if x["kind"] == "prefixL"}
+    prefixes = [x["name"] for x in d if x["kind"] in ("prefixL", "prefixS")]
+
+    # unit lines that are themselves substance aliases / mixtures (fixed point): they are not units
+    sublines = set()
+    changed = True
+    while changed:
+        changed = False
+        for x in d:
+            if x["kind"] == "unit" and "expr" in x and x["name"] not in sublines:
+                o = []
+                ulint.names_in(x["expr"], o)
+                if "'of'" in repr(x["expr"]):
+                    continue        # `<property> of <substance>` is a number, not a substance
+                if o and all((nm in subs or nm in sublines) and nm not in (exact - sublines - {x["name"]}) for nm in o):
+                    sublines.add(x["name"])
+                    changed = True
+    real = exact - sublines
+
+    def unit_reading(n):
+        def wp(m):
+            return m in real or any(m.startswith(p) and m[len(p):] in real for p in prefixes)
+        return wp(n) or (n.endswith("s") and wp(n[:-1]))
+
+    def walk(e, inside_of, out):
+        k = e[0]
+        if k == "unit":
+            out.append((e[1], inside_of))
+        elif k == "mul":
+            for x in e[1]:
+                walk(x, inside_of, out)
+        elif k in ("frac", "pow", "add", "sub"):
+            walk(e[1], inside_of, out)
+            walk(e[2], inside_of, out)
+        elif k in ("neg", "pos"):
+            walk(e[1], inside_of, out)
+        elif k == "of":
+            walk(e[2], True, out)
+    mixed, dead = [], []
+    n = 0
+    alias_defs = {x["name"] for x in d if x["kind"] == "unit" and x.get("expr", ("",))[0] == "unit"}
+    for x in d:
+        if x["kind"] != "unit" or "expr" not in x:
+            continue
+        names = []
+        walk(x["expr"], False, names)
+        outside = [nm for nm, ins in names if not ins]
+        # units are looked up first (prefix and plural readings included): a symbol that also reads as a unit is a unit here
+        s_out = [nm for nm in outside if (nm in subs or nm in sublines) and not unit_reading(nm)]
+        if not s_out:
+            continue
+        n += 1
+        # other names that are themselves substance aliases/mixtures are fine (a mixture of mixtures)
+        def dimensionless(nm):
+            try:
+                v, dims = folder().lookup(nm)
+                return not dims
+            except Exception:  # noqa
+                return False
+        # weights of a mixture (`78.084 % nitrogen + ...`) are dimensionless factors
+        others = [nm for nm in outside if nm not in s_out and not dimensionless(nm)]
+        if others:
+            mixed.append("%s = ... %s ... with %s" % (x["name"], s_out[0], others[:3]))
+        if x["name"] in sublines and unit_reading(x["name"]):
+            dead.append(x["name"])
+    chk.decide(not mixed, rule, "core/definitions.units", "no-substance-times-unit", "core/definitions.units",
+               "%d unit lines evaluate to substances; each is an alias or a mixture of substances" % n,
+               "unit lines that combine a substance with ordinary units outside `<property> of ...` (they are stored as substances, not units): %s" % mixed[:4])
+    chk.decide(not dead, rule, "core/definitions.units", "substance-aliases-reachable", "core/definitions.units",
+               "no substance alias is shadowed by a unit reading of its own name",
+               "substance aliases whose name also reads as a unit (exact, prefix+unit or plural), so the alias can never be reached: %s" % dead[:6])
+
+
+def _is_substance_line(d, name, subs, depth=0):
+    if name in subs:
+        return True
+    if depth > 4:
+        return False
+    for x in d:
+        if x["name"] == name and x["kind"] == "unit" and "expr" in x:
+            o = []
+            ulint.names_in(x["expr"], o)
+            return bool(o) and all(_is_substance_line(d, n2, subs, depth + 1) for n2 in o)
+    return False
+
+
 def overlay_rebinding(chk, rule="overlay-does-not-rebind"):
     """The currency overlay is loaded after (and separately from) definitions.units, so the values of the base entries
     are already fixed; the recorded definition text of a base entry keeps meaning what it meant only if every identifier
